@@ -184,16 +184,19 @@ class Case:
     """One correspondence case.  kind + toks is the line the Rust harness reads; the model
     side reads '<code> toks' (extracted driver) or 'dispatch code [expanded toks]' (coqc).
     A token is a decimal integer or x<hex> (a byte string, expanded to length + bytes)."""
-    __slots__ = ("kind", "toks", "meta", "term")
+    __slots__ = ("kind", "toks", "meta", "term", "rline")
 
-    def __init__(self, kind, toks, meta=None, term=None):
+    def __init__(self, kind, toks, meta=None, term=None, rline=None):
         self.kind = kind
         self.toks = [str(t) for t in toks]
         self.meta = meta
         self.term = term      # optional explicit Gallina term (: list Z) for coqc-only cases
+        self.rline = rline    # line for the Rust harness when it differs from kind + toks
 
     @property
     def line(self):
+        if self.rline is not None:
+            return self.rline
         return self.kind + (" " + " ".join(self.toks) if self.toks else "")
 
     def key(self):
@@ -533,7 +536,7 @@ class Check:
             if reported < max_report:
                 reported += 1
                 path = self.write_replay({
-                    "kind": "case", "property": self.pid, "family": fam, "case": c.line,
+                    "kind": "case", "property": self.pid, "family": fam, "case": c.line, "ckind": c.kind, "mtoks": " ".join(c.toks),
                     "impl": io, "model": mo,
                     "predicate_failure": why,
                     "correspondence": correspondence if mismatch else None,
@@ -607,7 +610,15 @@ def standard_main(pid, crate, codes, gen_cases, predicate, nontrivial=None, matc
             print(json.dumps(r, indent=1)[:4000])
             sys.exit(0)
         t = r["case"].split()
-        c = make_case(t[0], t[1:]) if make_case else Case(t[0], t[1:])
+        if r.get("mtoks") is not None and r.get("ckind"):
+            c = Case(r["ckind"], r["mtoks"].split(), rline=r["case"])
+            if make_case:
+                try:
+                    c = make_case(r["ckind"], r["mtoks"].split(), r["case"])
+                except TypeError:
+                    c = make_case(r["ckind"], r["mtoks"].split())
+        else:
+            c = make_case(t[0], t[1:]) if make_case else Case(t[0], t[1:])
         impl = ck.run_impl(binary, [c.line])
         model = ck.run_model([c], codes, sample=1) if c.kind in codes else None
         print("case     :", c.line[:2000])
